@@ -418,9 +418,94 @@ class ChainForceForms(Suite):
         return repr(case)
 
 
+UNREAD_SRC = """
+from taskchain import Task
+
+RUNS = []
+
+class Src(Task):
+    def run(self) -> dict:
+        RUNS.append('src')
+        return {'v': 1}
+
+class Mid(Task):
+    class Meta:
+        input_tasks = [Src]
+    def run(self, src) -> dict:
+        RUNS.append('mid')
+        return {'v': src['v'] + 1}
+
+class Detail(Task):
+    class Meta:
+        input_tasks = [Mid]
+    def run(self) -> dict:            # declares mid as an input and reads it only when asked for details
+        RUNS.append('detail')
+        return {'d': 0}
+
+class Report(Task):
+    class Meta:
+        input_tasks = [Detail, Mid]
+    def run(self, detail) -> dict:    # takes one input as argument, leaves the other alone
+        RUNS.append('report')
+        return {'r': detail['d']}
+"""
+
+
+class UnreadInputs(Suite):
+    """forcing with recompute where dependants declare a forced task among their inputs without taking it as an argument of
+    run (they would read it through self.input_tasks when they need it): every task of the closure is recomputed exactly
+    once by the call itself - none is left marked for a later request -, with and without delete_data.  Runtime check only."""
+    name = 'recompute_with_unread_inputs'
+    model = ''
+
+    def gen(self, rng, tier):
+        return [dict(pick=p, delete=d) for p in ('src', 'mid', 'detail') for d in (False, True)]
+
+    def run_impl(self, case):
+        import sys, types
+        from taskchain import Config
+        from .. import pipeline as pl
+        with pl.workspace(dict(classes=[], files={})) as (d, _):
+            name = 'tcv_unread'
+            m = types.ModuleType(name)
+            sys.modules[name] = m
+            try:
+                exec(compile(UNREAD_SRC, name, 'exec'), m.__dict__)
+                ch = Config(Path('data'), name='c', data={'tasks': [f'{name}.*']}).chain()
+                for t in ch.tasks.values():
+                    _ = t.value
+                m.RUNS.clear()
+                ch.force(case['pick'], recompute=True, delete_data=case['delete'])
+                ran = sorted(m.RUNS)
+                marked = sorted(n for n, t in ch.tasks.items() if t._forced)
+                stored = sorted(n for n, t in ch.tasks.items() if t.data_path.exists())
+                m.RUNS.clear()
+                for t in ch.tasks.values():
+                    _ = t.value
+                return dict(ran=ran, marked=marked, stored=stored, later=sorted(m.RUNS))
+            finally:
+                sys.modules.pop(name, None)
+
+    def oracle(self, case, obs):
+        if 'unexpected_exception' in obs:
+            return f'unexpected exception {obs["unexpected_exception"]}: {obs["text"]}'
+        down = {'src': ['detail', 'mid', 'report', 'src'], 'mid': ['detail', 'mid', 'report'], 'detail': ['detail', 'report']}[case['pick']]
+        if obs['ran'] != down or obs['marked'] or obs['later'] or obs['stored'] != ['detail', 'mid', 'report', 'src']:
+            return (f'force({case["pick"]!r}, recompute=True, delete_data={case["delete"]}) ran {obs["ran"]}, left {obs["marked"]} marked, '
+                    f'stored results of {obs["stored"]}, and later requests ran {obs["later"]}; the named task and everything downstream '
+                    f'are {down}: each recomputed once by the call, nothing left for later')
+        return None
+
+    def nontrivial(self, case, obs):
+        return True
+
+    def key(self, case):
+        return repr(case)
+
+
 class C07(Prop):
     pid = 'C07'
-    suites = [Forcing(), NameModeForce(), DataKindsForce(), FailingRecompute(), ChainForceForms()]
+    suites = [Forcing(), NameModeForce(), DataKindsForce(), FailingRecompute(), ChainForceForms(), UnreadInputs()]
     assumptions = ['Chain.force iterates a set: the recomputation order is arbitrary, the model uses one order and the '
                    'comparison sorts the runs of that operation']
 
